@@ -12,6 +12,11 @@ def mutant(id, props, rule, *edits, also=()):
     CORPUS.append({"id": id, "kind": "mutant", "props": list(props), "rule": rule, "edits": list(edits), "also": tuple(also)})
 
 
+def repair(id, props, finding, *edits):
+    """A repaired scratch copy: the known finding must no longer be reported (and nothing new)."""
+    CORPUS.append({"id": id, "kind": "repair", "props": list(props), "rule": None, "finding": finding, "edits": list(edits)})
+
+
 def benign(id, props, *edits):
     CORPUS.append({"id": id, "kind": "benign", "props": list(props), "rule": None, "edits": list(edits)})
 
@@ -637,3 +642,35 @@ mutant("M109-blockview-nominal-chunks", ["C12"], "META-1", ("cubed/core/indexing
 ALL_PROPS = [f"C{i:02d}" for i in range(1, 21) if i != 14]
 CORPUS.append({"id": "B-unparse-roundtrip-every-module", "kind": "benign", "props": ALL_PROPS, "rule": None, "edits": [], "transform": "unparse-all"})
 CORPUS.append({"id": "B-shift-all-line-numbers", "kind": "benign", "props": ALL_PROPS, "rule": None, "edits": [], "transform": "shift-lines"})
+
+
+# --------------------------------------------------------------- repaired twins of the known findings
+# (guidance: "silent on a repaired scratch copy"): with the repair applied the KNOWN-FINDING
+# disappears and nothing else is reported.  F5 has no small repair (that is why it is a
+# known finding and not a fix: commit), so it has no twin.
+repair(
+    "R-F7-scan-assert-to-valueerror",
+    ["C17"],
+    "F7",
+    (OPS, "    assert increment.shape[axis] == scanned.numblocks[axis]\n", "    if increment.shape[axis] != scanned.numblocks[axis]:\n        raise ValueError(\"cumulative scan: block count of the increment does not match the scanned array\")\n"),
+)
+repair(
+    "R-F9-gensym-process-token",
+    ["C20"],
+    "F9",
+    (ARRAY, "sym_counter = 0\n\n\ndef gensym(name=\"array\"):", "import uuid\n\nPROCESS_TOKEN = uuid.uuid4().hex[:8]\nsym_counter = 0\n\n\ndef gensym(name=\"array\"):"),
+    (ARRAY, "    return f\"{name}-{sym_counter:03}\"", "    return f\"{name}-{PROCESS_TOKEN}-{sym_counter:03}\""),
+    (PLAN, "    global sym_counter\n    sym_counter += 1\n    return f\"{name}-{sym_counter:03}\"", "    global sym_counter\n    sym_counter += 1\n    return f\"{name}-{CONTEXT_ID}-{sym_counter:03}\""),
+)
+repair(
+    "R-F6-rechunk-to-target-chunks",
+    ["C05", "C11"],
+    "F6",
+    (OPS, "                source = source.rechunk(target.shards)\n    if not is_storage_array(target):", "                source = source.rechunk(target.shards)\n        if hasattr(target, \"chunks\"):\n            if tuple(target.chunks) != source.chunksize:\n                source = source.rechunk(target.chunks)\n    if not is_storage_array(target):"),
+)
+repair(
+    "R-F9b-merge-detects-name-collision",
+    ["C20"],
+    "F9",
+    (PLAN, "    dags = [x._plan.dag for x in arrays if hasattr(x, \"_plan\")]\n    return nx.compose_all(dags)", "    dags = [x._plan.dag for x in arrays if hasattr(x, \"_plan\")]\n    seen = {}\n    for dag in dags:\n        for n, d in dag.nodes(data=True):\n            if n in seen and seen[n].get(\"target\") is not d.get(\"target\"):\n                raise ValueError(f\"two different plan nodes share the name {n}\")\n            seen[n] = d\n    return nx.compose_all(dags)"),
+)
